@@ -15,6 +15,7 @@ TInit == Init /\ tid \in 1..Len(Traces) /\ l = 1 /\ verdict = "run"
 Final == IF T.exc # "none" THEN "raises:" \o T.exc
          ELSE IF Tup(T.wprinted) # Entity(wname) THEN "written_name_printed_as_normalised:" \o wpos
          ELSE IF Tup(T.rprinted) # Entity(rname) THEN "read_name_printed_as_normalised:" \o rpos
+         ELSE IF ~T.hash_consistent THEN "equal_entities_hash_equally:" \o wpos
          ELSE IF T.connected # SameEntity THEN (IF SameEntity THEN "same_entity_not_found_again:" ELSE "different_entities_confused:") \o wpos \o "->" \o rpos
          ELSE "ok"
 TNext == /\ verdict = "run"
